@@ -1,3 +1,5 @@
 import FrappyProofs.Lemmas.Logging
 import FrappyProofs.Lemmas.Rotate
+import FrappyProofs.Lemmas.StateMachineCount
+import FrappyProofs.Props.C14
 import FrappyProofs.Props.C20
